@@ -303,3 +303,31 @@ contract(
     attrs={"instance.bin_width": "W", "instance.bin_height": "H"}, summaries=_super,
     ensures=[tag("C02", "bin-size-is-area", "self._bin_size == W * H")],
 )
+
+
+# ====================================================================== to_bin_count and dominance (C02)
+_ceil_div = contract("<opaque>:ceil_div", params={"a": PYINT, "b": PYINT}, returns=PYINT,
+                     requires=[tag("C02", "positive-divisor", "b >= 1")],
+                     ensures=["result * b >= a and (result - 1) * b < a"],
+                     assumptions=["pycommons.math.int_math.ceil_div(a, b) is the exact integer ceiling of a / b for b >= 1"])
+
+contract(
+    OB + "bin_count_and_last_small:BinCountAndLastSmall.to_bin_count", props="C02",
+    params={"z": PYINT}, ghosts={"A": PYINT, "k": PYINT, "tie": PYINT}, i64=False, returns=PYINT,
+    attrs={"self._bin_size": "A"}, opaque={"ceil_div": _ceil_div},
+    # every value of the four area-based objectives has the form A*(k-1) + tie with 1 <= tie <= A (tie = covered area or
+    # area under the skyline of one bin: positive, at most the bin area)
+    requires=["A >= 1 and k >= 1 and 1 <= tie and tie <= A and z == A * (k - 1) + tie"],
+    ensures=[tag("C02", "converts-back-to-bin-count", "result == k")],
+)
+contract(
+    OB + "bin_count_and_last_empty:BinCountAndLastEmpty.to_bin_count", props="C02",
+    params={"z": PYINT}, ghosts={"N": PYINT, "k": PYINT, "tie": PYINT}, i64=False, returns=PYINT,
+    attrs={"self._instance.n_items": "N"}, opaque={"ceil_div": _ceil_div},
+    requires=["N >= 1 and k >= 1 and 1 <= tie and tie <= N and z == N * (k - 1) + tie"],
+    ensures=[tag("C02", "converts-back-to-bin-count", "result == k")],
+)
+# strict dominance: fewer bins => strictly smaller value, for every objective of the form scale*(bins-1) + tie, 1 <= tie <= scale
+lemma("dominance", {"S": "int", "k1": "int", "t1": "int", "k2": "int", "t2": "int"},
+      ["S >= 1", "1 <= k1", "k1 < k2", "1 <= t1", "t1 <= S", "1 <= t2", "t2 <= S"],
+      "S * (k1 - 1) + t1 < S * (k2 - 1) + t2")
